@@ -4,6 +4,7 @@ import (
 	"bytes"
 	"encoding/binary"
 	"fmt"
+	"hash/crc32"
 	"math"
 	"path/filepath"
 	"strings"
@@ -358,6 +359,24 @@ func c08Run(c *ev.Ctx) {
 	}
 }
 
+// forgeCRC32 returns the four bytes that, appended to prefix, give the whole the IEEE CRC-32
+// `target` (the register is run backwards through the table from the wanted final value).
+func forgeCRC32(prefix []byte, target uint32) []byte {
+	tbl := crc32.IEEETable
+	var rev [256]byte
+	for i := 0; i < 256; i++ {
+		rev[tbl[i]>>24] = byte(i)
+	}
+	reg := target ^ 0xFFFFFFFF
+	for i := 0; i < 4; i++ {
+		idx := rev[reg>>24]
+		reg = (reg^tbl[idx])<<8 | uint32(idx)
+	}
+	cur := crc32.ChecksumIEEE(prefix) ^ 0xFFFFFFFF
+	v := reg ^ cur
+	return []byte{byte(v), byte(v >> 8), byte(v >> 16), byte(v >> 24)}
+}
+
 type c08Sibling struct {
 	name string
 	data []byte
@@ -400,6 +419,16 @@ func c08Siblings(r *ev.Rand, x []byte) []c08Sibling {
 			put(2, w(2)+1)
 			out = append(out, c08Sibling{"same-fletcher32", y})
 			break
+		}
+	}
+	// same length, same CRC-32: other leading bytes, the last four chosen so that the
+	// checksum comes out equal
+	if len(x) >= 8 {
+		y := append([]byte(nil), x...)
+		y[r.Intn(len(y)-4)] ^= byte(1 + r.Intn(255))
+		copy(y[len(y)-4:], forgeCRC32(y[:len(y)-4], crc32.ChecksumIEEE(x)))
+		if crc32.ChecksumIEEE(y) == crc32.ChecksumIEEE(x) && !bytes.Equal(x, y) {
+			out = append(out, c08Sibling{"same-crc32", y})
 		}
 	}
 	out = append(out, c08Sibling{"identical", append([]byte(nil), x...)})
@@ -629,7 +658,7 @@ func c08EndToEnd(c *ev.Ctx) {
 var C08 = &ev.Property{
 	ID:    "C08",
 	Level: "exploration",
-	Rule: "package level: every ordered selection of distinct filters from {deflate(level 1-9), shuffle(elem 1,2,4,8,16), fletcher32, lzf} (64 orderings × seeded parameters) × 18-20 payload sizes (0 B..4 KiB, thorough up to 1 MiB; 2 MiB of zeros for compressing pipelines, thorough also 8 MiB) × 5 payload kinds plus periodic payloads (a random block repeated at periods 1,2,3,8,31-33,255-257,263-265,8191-8194 and, thorough, 32767-32769: back references at the compressors' length and window limits): Apply/Remove identity, pipeline message encode/parse identity, reader (core.ApplyFilters on a description built from the filters' ids/client data) decodes the writer's bytes; every payload is followed through the same filter objects by up to four near-copies of the same length (same Adler-32, same Fletcher-32, identical, one byte changed) that must each decode to themselves, and the decoded payload returned before them must still read the same afterwards; " +
+	Rule: "package level: every ordered selection of distinct filters from {deflate(level 1-9), shuffle(elem 1,2,4,8,16), fletcher32, lzf} (64 orderings × seeded parameters) × 18-20 payload sizes (0 B..4 KiB, thorough up to 1 MiB; 2 MiB of zeros for compressing pipelines, thorough also 8 MiB) × 5 payload kinds plus periodic payloads (a random block repeated at periods 1,2,3,8,31-33,255-257,263-265,8191-8194 and, thorough, 32767-32769: back references at the compressors' length and window limits): Apply/Remove identity, pipeline message encode/parse identity, reader (core.ApplyFilters on a description built from the filters' ids/client data) decodes the writer's bytes; every payload is followed through the same filter objects by up to four near-copies of the same length (same Adler-32, same Fletcher-32, same CRC-32, identical, one byte changed) that must each decode to themselves, and the decoded payload returned before them must still read the same afterwards; " +
 		"for pipelines ending in fletcher32 every byte position (<=512 B) or 200 sampled positions of the stored chunk is altered by a bit flip and both decoders must report an error. End to end: chunked filtered datasets through the public API in all accepted option combinations × superblock 0/2/3 (a third with consecutive chunks that are such near-copies of each other), reopened and read. " +
 		"distinct = distinct (pipeline with parameters) or e2e configuration descriptors; all are non-trivial.",
 	Assumptions: []string{
